@@ -1061,7 +1061,8 @@ class C09(Check):
             findings.append(Finding(f'C09:class-state:{name}',
                                     f'serving further requests changed {name}: {before} -> {after}',
                                     dict(kind='class-state', n=2)))
-        growth_kinds = fail_kinds + ['ok-cookie', 'raise-resp', 'good-body', 'upload', 'wild', 'login', 'app-resp'] + spool_kinds[:3]
+        growth_kinds = (fail_kinds[:12] + ['ok-cookie', 'raise-resp', 'good-body', 'upload', 'wild', 'login', 'app-resp']
+                        + ['malformed-meta', 'upload@64', 'spool-read@8'])
         if n < 2000:      # quick tier: uploads, wildcard routes and two other kinds per run; thorough: every kind
             growth_kinds = ['upload', 'wild'] + rng.sample([k for k in growth_kinds if k not in ('upload', 'wild')], 2)
         for kind in growth_kinds:
@@ -1079,8 +1080,8 @@ class C09(Check):
         big = set(fail_kinds + spool_kinds if n >= 2000 else rng.sample(fail_kinds, 4) + rng.sample(spool_kinds, 1))
         for kind in fail_kinds + spool_kinds:
             for N in sizes:
-                if N >= 1000 and (kind not in big or (kind.endswith('@default') and N > 1000)):
-                    continue
+                if N >= 1000 and (kind not in big or (kind not in fail_kinds[:12] and N > 1000)):
+                    continue            # (5000 requests: the failing kinds of the first rounds only, to stay in the budget)
                 evals += 1
                 res = self.reference().measure('retention', kind, N, rng.randrange(1 << 30))
                 if res and res[0] == 'EXC':
